@@ -50,7 +50,12 @@ def main():
                 rules = [l.strip() for l in r.stdout.splitlines() if l.startswith("  rule=")]
                 hits.append((c, r.returncode, rules[:3]))
             det = any(rc == 1 for _, rc, _ in hits)
-            rows.append((name, "DETECTED" if det else "missed", f"{dres} {round(time.time()-t)}s {hits}"))
+            verdict = "DETECTED" if det else "missed"
+            if not det and meta.get("expected"):
+                # recorded in meta.json with the reason (see DESIGN 10): the change is outside the property's stated
+                # domain, or its only symptom lies inside the signature of a known finding
+                verdict = "not-decided(" + meta["expected"] + ")"
+            rows.append((name, verdict, f"{dres} {round(time.time()-t)}s {hits}"))
         finally:
             shutil.rmtree(tmp, ignore_errors=True)
     for r in rows:
